@@ -160,7 +160,16 @@ def run(shard, rec):
             i, v = mpc.argmin(sx)
             j, w_ = mpc.argmax(sx)
             a, b = mpc.min_max(sx)
-            return [await mpc.output(s), await mpc.output([i, v, j, w_, a, b])]
+            # rows (lists of secure numbers) ordered by a key; afterwards the caller reuses its row buffers in place, as a batch loop would:
+            # the results must be those of the rows as passed
+            rows = [[sx[k], sx[k] * 2 + 1] for k in range(len(sx))]
+            srows = mpc.sorted(rows, key=lambda r: r[0])
+            mn, mx = mpc.min(rows, key=lambda r: r[0]), mpc.max(rows, key=lambda r: r[0])
+            am = mpc.argmin(rows, key=lambda r: r[0])
+            sx.reverse()
+            for r_ in rows:
+                r_[0], r_[1] = secint(99), secint(-99)
+            return [await mpc.output(s), await mpc.output([i, v, j, w_, a, b]), [await mpc.output(r_) for r_ in srows], await mpc.output(mn), await mpc.output(mx), await mpc.output(am[0]), await mpc.output(am[1])]
         w = sim.World(m, t, no_prss, seed=sseed, policy=rng.choice(sim.POLICIES)).run(program)
         res = w.ok_results()
         what = f'{shard["name"]} n={n}'
@@ -169,7 +178,10 @@ def run(shard, rec):
             continue
         rec.count('sorted_checked')
         rec.count('arg_checked')
-        exp = [sorted(xs, reverse=rev), [xs.index(min(xs)), min(xs), xs.index(max(xs)), max(xs), min(xs), max(xs)]]
+        prow = [[v, 2 * v + 1] for v in xs]
+        exp = [sorted(xs, reverse=rev), [xs.index(min(xs)), min(xs), xs.index(max(xs)), max(xs), min(xs), max(xs)],
+               sorted(prow, key=lambda r: r[0]), min(prow, key=lambda r: r[0]), max(prow, key=lambda r: r[0]), xs.index(min(xs)), min(prow, key=lambda r: r[0])]
+        rec.count('row_sorts_with_reused_buffers')
         for pid, r in enumerate(res):
             if r != exp:
                 rec.violation(f'{what}: party {pid} obtained {r} for input {xs}, expected {exp}', {'fn': 'sim', 'mechanism': 'wrong-result'}, {'case': case}, case=case)
